@@ -1,7 +1,7 @@
 (* C20 -- the configuration read off the current source by tools/gen_c20.py is one the theorems
    of C20/Proofs.v are proved for. *)
 From Coq Require Import ZArith List Bool.
-From PB Require Import C20.Model C20.Layout gen.GenC20.
+From PB Require Import C20.Model C20.Layout C20.Reductions gen.GenC20.
 Open Scope Z_scope.
 
 Lemma gen_cfgs_ok : cfg_ok gen_cfg_whittaker = true /\ cfg_ok gen_cfg_spline = true.
@@ -9,4 +9,8 @@ Proof. split; vm_compute; reflexivity. Qed.
 
 (* every flattening in pybaselines/two_d uses the default (row-major, layout independent) order *)
 Lemma gen_orders_ok : forallb order_ok gen_flatten_orders = true /\ gen_flatten_orders <> nil.
+Proof. split; [vm_compute; reflexivity|discriminate]. Qed.
+
+(* no reduction of the eigen-capable hosts / their helpers depends on whether its array is 1-D or 2-D *)
+Lemma gen_reductions_ok : forallb red_ok gen_reductions = true /\ gen_reductions <> nil.
 Proof. split; [vm_compute; reflexivity|discriminate]. Qed.
